@@ -9,6 +9,6 @@ Extraction "model.ml"
   estep erun ebytes esize enc_nested dstep drun in_dom
   parse protodump
   lazy_decode_dec lazy_decode_fn lazy_decode_nested observe acc_aliases_input pstep prun pinit
-  vdepth gen_size gen_ops gen_marshal gen_marshal_to ref_decode normalize gen_unmarshal legal_msg no_dup_msgs hstep hinit mutation_fresh msg_at neg_zero_free out_names apply_opt default_opts
+  vdepth gen_size gen_ops gen_marshal gen_marshal_to ref_decode normalize gen_unmarshal legal_msg no_dup_msgs hstep hinit mutation_fresh msg_at out_names apply_opt default_opts
   deduce marshal_action unmarshal_action size_action clone_action equal_action reset_action text_action range_ext_action crun
   ext_run marshal_json unmarshal_json jbuild jdefault.
